@@ -46,6 +46,7 @@ def run(ctx):
     decoders(ctx, facts)
     C08.check_range(ctx, facts)   # prime-field decoders construct only under v < PRIME (interval analysis)
     C08.check_pad_constructors(ctx, facts)   # every other bytes -> value path of a padded type also keeps the padding zero
+    C08.check_padding(ctx, facts)            # operators keep the padding zero, so every in-memory value has an encoding that decodes
     event_type(ctx, facts)
     codecs(ctx, facts)
     ctx.assume("round-trip equality and bit-matrix transposes are numerical and not decided; curve25519-dalek's decompress / scalar parsing are trusted")
@@ -98,7 +99,7 @@ def table(ctx, facts):
             ctx.ob("TABLE-size", "additive-share=2*V", ok, f"AdditiveShare<V>::Size = {ty[:120]}")
 
 
-def decoders(ctx, facts):
+def decoders(ctx, facts, siblings=True):
     ctx.rule("GUARD-decode: Boolean: buf[0] > 1 => Err, never Ok; padded bit arrays: Ok only if raw[BITS..].not_any(); RP25519: decompress() failure => Err; prime fields: v < PRIME (RANGE, see C08)")
     # Boolean
     b = facts.bodies.get("<ff::boolean::Boolean as ff::Serializable>::deserialize")
@@ -157,7 +158,9 @@ def decoders(ctx, facts):
             oo = [(bb, t) for bb, t in b.calls() if (F.callee(t)[0] or "").endswith("Option::<T>::ok_or") and "decompress" in str(flow.expr_of(b, t["args"][0]))]
             okr = bool(oo) and flow.question_mark(b, oo[0][1]["d"][0]) is not None
         ctx.ob("GUARD-decode", "RP25519", okr, "non-canonical Ristretto encodings are rejected (decompress()?)" if okr else "RP25519 decoder does not reject encodings that fail to decompress", site_of(b))
-    # sibling decoders of prime-order types
+    # sibling decoders of prime-order types (an encoding question: the reduced value itself is canonical)
+    if not siblings:
+        return
     ctx.rule("SIBLING-decoder: every decoder of a prime-order type rejects out-of-range input (fallible, guard v < PRIME); one that reduces (`*_mod_order`) with an Infallible error type is the deviant")
     b = facts.bodies.get("<ff::ec_prime_field::Fp25519 as ff::Serializable>::deserialize")
     if b is None:
